@@ -27,6 +27,18 @@
 (* A raise unwinds every running handler (X with ok = FALSE, nothing is    *)
 (* stored for them).                                                       *)
 (*                                                                         *)
+(* Round 4 - the DISPATCH PATH.  A miss runs "the handler of the node with  *)
+(* the caller's extra arguments".  CachedMapper.__call__ reaches the        *)
+(* handler in two ways: directly (the node's own mapper_method) or through  *)
+(* rec_fallback (class-hierarchy search / map_foreign), C05_Fresh!          *)
+(* DispatchPath.  FbMode "faithful" hands the handler exactly (args,        *)
+(* kwargs) on every path - the design.  "mro-dropkw" is the seeded design   *)
+(* error of the negative controls *_Buggy_FallbackDropsKw: the method found *)
+(* through the node's MRO is called with *args only.  The handler then      *)
+(* logs, recurses and computes with the arguments it RECEIVED (HandlerArgs) *)
+(* while the result is stored under the caller's key.  The CSE mix-in       *)
+(* (scope "cse") has no dispatch of its own.                                *)
+(*                                                                         *)
 (* CRec produces the result together with the events an instrumented       *)
 (* mapper would log, so that TLC can run the S-layer machine (C05_Memo)    *)
 (* on them: "the algorithm refines the memo machine".                      *)
@@ -44,46 +56,53 @@ HitOutcome(hit, r) ==
            [] OTHER                      -> "hit"
 ResErr(r) == r.rk = "err"
 
-RECURSIVE CRecH(_, _, _, _, _, _, _)
-CRecH(keyMode, storeMode, hit, st, mk, e, a) ==
+\* the extra arguments the handler of e receives when the caller passed a
+HandlerArgs(fb, mk, e, a) ==
+    IF fb = "mro-dropkw" /\ mk.scope = "all" /\ DispatchPath(e) = "mro"
+    THEN Args(a.pos, << >>) ELSE a
+
+RECURSIVE CRecH(_, _, _, _, _, _, _, _)
+CRecH(keyMode, storeMode, hit, fb, st, mk, e, a) ==
     LET ik == KeyOf(keyMode, e, a)
         ho == IF InScope(mk, e) /\ ik \in DOMAIN st.tab THEN HitOutcome(hit, st.tab[ik])
               ELSE "miss"
     IN
     IF ho = "hit" THEN [tab |-> st.tab, evs |-> st.evs, r |-> st.tab[ik]]
     ELSE IF ho = "raise" THEN [tab |-> st.tab, evs |-> st.evs, r |-> ErrR("ValueError")]
-    ELSE LET k  == KeyOf("ideal", e, a)
+    ELSE LET ha == HandlerArgs(fb, mk, e, a)
+             k  == KeyOf("ideal", e, ha)       \* the handler logs what it received
              ks == RecKids(mk, e)
              RECURSIVE Go(_, _, _)
              Go(s, i, rs) ==
                  IF i > Len(ks) \/ (Len(rs) > 0 /\ ResErr(rs[Len(rs)])) THEN [s |-> s, rs |-> rs]
-                 ELSE LET x == CRecH(keyMode, storeMode, hit, s, mk, ks[i], a) IN
+                 ELSE LET x == CRecH(keyMode, storeMode, hit, fb, s, mk, ks[i], ha) IN
                       Go([tab |-> x.tab, evs |-> x.evs], i + 1, Append(rs, x.r))
              s0 == [tab |-> st.tab,
                     evs |-> IF InScope(mk, e) THEN Append(st.evs, [ev |-> "H", k |-> k])
                             ELSE st.evs]
              g  == Go(s0, 1, << >>)
              bad == Len(g.rs) > 0 /\ ResErr(g.rs[Len(g.rs)])
-             r  == IF bad THEN g.rs[Len(g.rs)] ELSE Combine(mk, e, a, g.rs)
+             r  == IF bad THEN g.rs[Len(g.rs)] ELSE Combine(mk, e, ha, g.rs)
          IN [tab |-> IF InScope(mk, e) /\ storeMode = "store" /\ ~bad THEN (ik :> r) @@ g.s.tab
                      ELSE g.s.tab,
              evs |-> IF InScope(mk, e)
                      THEN Append(g.s.evs, [ev |-> "X", k |-> k, ok |-> ~bad]) ELSE g.s.evs,
              r |-> r]
-CRec(keyMode, storeMode, st, mk, e, a) == CRecH(keyMode, storeMode, "identity", st, mk, e, a)
+CRec(keyMode, storeMode, st, mk, e, a) ==
+    CRecH(keyMode, storeMode, "identity", "faithful", st, mk, e, a)
 
 TouchedKeys(mk, e, a) ==
     { KeyOf("ideal", s, a) : s \in { t \in Touched(mk, e) : InScope(mk, t) } }
 
 \* one top-level call on an instance whose table is tab: new table, the logged
 \* events including the top-level return, and the result
-TopCallH(keyMode, storeMode, hit, tab, mk, e, a) ==
-    LET x == CRecH(keyMode, storeMode, hit, [tab |-> tab, evs |-> << >>], mk, e, a)
+TopCallH(keyMode, storeMode, hit, fb, tab, mk, e, a) ==
+    LET x == CRecH(keyMode, storeMode, hit, fb, [tab |-> tab, evs |-> << >>], mk, e, a)
         k == KeyOf("ideal", e, a)
     IN  [tab |-> x.tab, r |-> x.r,
          evs |-> Append(x.evs,
                    IF mk.m = "walk" THEN [ev |-> "W", k |-> k, F |-> TouchedKeys(mk, e, a)]
                    ELSE [ev |-> "R", k |-> k, r |-> x.r, f |-> Fresh(mk, e, a)])]
 TopCall(keyMode, storeMode, tab, mk, e, a) ==
-    TopCallH(keyMode, storeMode, "identity", tab, mk, e, a)
+    TopCallH(keyMode, storeMode, "identity", "faithful", tab, mk, e, a)
 =============================================================================
